@@ -1,6 +1,724 @@
+// C17 parts (ii)–(iv): the real default chain (stack library, stub terminal)
+// under generated access lists, views and internal sub-queries.
+//
+//	pipeline.go  shared helpers + (ii) in-process entries (strict wire + decoded)
+//	sockets.go   (ii) real UDP/TCP/DoT/DoH/DoQ sockets bound to the probe source
+//	views.go     (iii) per-client views, generated declaration orders
+//	internal.go  (iv) internal sub-queries under hostile client policy
 package main
 
-import "github.com/semihalev/sdns/zzverif/vlib"
+import (
+	"context"
+	"encoding/hex"
+	"encoding/json"
+	"fmt"
+	"math/rand/v2"
+	"net"
+	"net/netip"
+	"os"
+	"strings"
+	"time"
 
-// runPipeline: parts (ii)–(iv); filled in by the pipeline harness.
-func runPipeline(r *vlib.Run) {}
+	"github.com/miekg/dns"
+
+	"github.com/semihalev/sdns/zzverif/replycontract"
+	"github.com/semihalev/sdns/zzverif/stack"
+	"github.com/semihalev/sdns/zzverif/vlib"
+)
+
+// ---------------------------------------------------------------------
+// reference model
+// ---------------------------------------------------------------------
+
+// parseGood returns the parsable entries of a CIDR list (masked) and the
+// number of unparsable ones.
+func parseGood(list []string) (good []netip.Prefix, bad int) {
+	for _, c := range list {
+		p, err := netip.ParsePrefix(c)
+		if err != nil {
+			bad++
+			continue
+		}
+		good = append(good, p.Masked())
+	}
+	return good, bad
+}
+
+// refAdmits is the reference access decision for a configured access list.
+// An EMPTY configured list is sdns's documented open default (accesslist.New
+// installs 0.0.0.0/0 and ::0/0); otherwise membership is exactly "lies in at
+// least one parsable CIDR" — a non-empty list of only unparsable entries
+// therefore admits nobody.
+func refAdmits(list []string, a netip.Addr) bool {
+	if !a.IsValid() {
+		return false
+	}
+	if len(list) == 0 {
+		return true
+	}
+	good, _ := parseGood(list)
+	return refContains(good, a)
+}
+
+// ---------------------------------------------------------------------
+// probe plumbing
+// ---------------------------------------------------------------------
+
+// srcSpec is one probe source as the transport presents it to the chain.
+type srcSpec struct {
+	Addr netip.Addr // as generated (may be an IPv4-mapped IPv6 address)
+	Port int        // never 0 (127.0.0.255:0 is sdns's legacy internal sentinel)
+	// Form16: present an IPv4 address as the 16-byte net.IP a dual-stack
+	// socket yields (the same bytes as its IPv4-mapped IPv6 form); otherwise
+	// the 4-byte form a plain IPv4 socket yields.
+	Form16 bool
+}
+
+func (s srcSpec) ip() net.IP {
+	a := s.Addr
+	if a.Is4() {
+		if s.Form16 {
+			b := a.As16()
+			return net.IP(b[:])
+		}
+		b := a.As4()
+		return net.IP(b[:])
+	}
+	b := a.As16()
+	return net.IP(b[:])
+}
+
+func (s srcSpec) String() string {
+	f := ""
+	if s.Addr.Is4() && s.Form16 {
+		f = "/16b"
+	}
+	return fmt.Sprintf("%s%s#%d", s.Addr, f, s.Port)
+}
+
+func (s srcSpec) netAddr(datagram bool) net.Addr {
+	if datagram {
+		return &net.UDPAddr{IP: s.ip(), Port: s.Port}
+	}
+	return &net.TCPAddr{IP: s.ip(), Port: s.Port}
+}
+
+// in-process entry paths. wire-*: the strict wire entry the owned UDP/TCP
+// engines use (server.VerifStrictJob); msg-*: the decoded entry DoH/DoQ use.
+var inprocPaths = []string{
+	"wire-udp", "wire-tcp", "wire-udp-engine", "wire-udp-replay",
+	"msg-udp", "msg-tcp", "msg-dot", "msg-doh", "msg-doq",
+}
+
+func isWirePath(p string) bool { return strings.HasPrefix(p, "wire-") }
+
+func contractTransport(path string) string {
+	switch path {
+	case "wire-tcp", "msg-tcp":
+		return "tcp"
+	case "msg-dot":
+		return "dot"
+	case "msg-doh":
+		return "doh"
+	case "msg-doq":
+		return "doq"
+	}
+	return "udp"
+}
+
+// obs is what one in-process serve produced, with the downstream-work deltas.
+type obs struct {
+	Query   []byte
+	Wrote   bool
+	Writes  int
+	Raw     []byte
+	Msg     *dns.Msg
+	Strict  bool
+	Handled bool
+	Panic   any
+	Stub    int64 // stub invocations caused
+	Hits    int64 // cache hit counter delta
+	Misses  int64 // cache miss counter delta
+}
+
+func cacheHM(st *stack.Stack) (int64, int64) {
+	c := st.Cache()
+	if c == nil {
+		return 0, 0
+	}
+	s := c.Stats()
+	h, _ := s["hits"].(int64)
+	m, _ := s["misses"].(int64)
+	return h, m
+}
+
+func buildQuery(rng *rand.Rand, qname string, qtype uint16) *dns.Msg {
+	q := new(dns.Msg)
+	q.SetQuestion(qname, qtype)
+	q.Id = uint16(1 + rng.IntN(65535))
+	q.RecursionDesired = true
+	switch rng.IntN(3) {
+	case 0: // no EDNS
+	case 1:
+		q.SetEdns0(1232, false)
+	default:
+		q.SetEdns0(4096, true)
+	}
+	return q
+}
+
+// serveInproc sends one query from src through the named in-process path.
+func serveInproc(st *stack.Stack, src srcSpec, path string, q *dns.Msg) (o obs) {
+	pkt, err := q.Pack()
+	if err != nil {
+		o.Panic = "harness: pack: " + err.Error()
+		return o
+	}
+	o.Query = pkt
+	stub0 := int64(st.Stub().Total())
+	h0, m0 := cacheHM(st)
+	defer func() {
+		o.Stub = int64(st.Stub().Total()) - stub0
+		h1, m1 := cacheHM(st)
+		o.Hits, o.Misses = h1-h0, m1-m0
+	}()
+
+	if isWirePath(path) {
+		proto := "udp"
+		if path == "wire-tcp" {
+			proto = "tcp"
+		}
+		job := stack.NewJob("192.0.2.1:1", proto)
+		job.Remote = src.netAddr(proto == "udp")
+		var res stack.Result
+		switch path {
+		case "wire-udp-engine":
+			res, _ = st.ServeRawLikeEngine(job, pkt)
+			if res.Panic == nil && !res.Wrote && !res.Handled {
+				// replay pass said "undecodable" — cannot happen for our queries
+				o.Panic = "harness: engine path reported unhandled packet"
+			}
+		case "wire-udp-replay":
+			res = st.ServeRawJob(job, stack.RawReplay, pkt)
+		default:
+			res = st.ServeRawJob(job, stack.RawServe, pkt)
+		}
+		o.Wrote, o.Writes, o.Raw, o.Msg = res.Wrote, res.Writes, res.Raw, res.Msg
+		o.Strict, o.Handled = res.Strict, res.Handled
+		if res.Panic != nil {
+			o.Panic = res.Panic
+		}
+		return o
+	}
+
+	proto := strings.TrimPrefix(path, "msg-")
+	t := stack.NewRecTransport(proto, "192.0.2.1:1")
+	t.Remote = src.netAddr(proto == "udp" || proto == "doq")
+	func() {
+		defer func() {
+			if p := recover(); p != nil {
+				o.Panic = p
+			}
+		}()
+		st.Server.ServeMsg(context.Background(), t, q.Copy())
+	}()
+	o.Handled = true
+	o.Writes = len(t.Raws)
+	if o.Writes > 0 {
+		o.Wrote = true
+		o.Raw = t.Raws[o.Writes-1]
+		m := new(dns.Msg)
+		if m.Unpack(o.Raw) == nil {
+			o.Msg = m
+		}
+	}
+	return o
+}
+
+// answersQuestion: the reply is a response to this very question.
+func answersQuestion(m *dns.Msg, qname string, qtype uint16) bool {
+	if m == nil || !m.Response || len(m.Question) != 1 {
+		return false
+	}
+	return strings.EqualFold(m.Question[0].Name, qname) && m.Question[0].Qtype == qtype
+}
+
+func countContract(r *vlib.Run, transport string, query, reply []byte) {
+	if reply == nil {
+		return
+	}
+	r.Count("contract_checked", 1)
+	for _, b := range replycontract.Check(transport, query, reply, replycontract.Options{}) {
+		if b.Info {
+			continue
+		}
+		r.Count("contract_breaches", 1)
+		r.Count("contract_breach_"+b.Rule, 1)
+	}
+}
+
+// ---------------------------------------------------------------------
+// generators
+// ---------------------------------------------------------------------
+
+var badEntries = []string{"", "10.0.0.0", "10.0.0.0/33", "::/129", "300.1.1.1/8", "10.0.0.0/-1", "abc",
+	"10.0.0.0/8/8", "1.2.3/8", " 10.0.0.0/8", "10.0.0.0/8 ", "::ffff:10.0.0.0/104x", "fe80::1%eth0/64",
+	"0.0.0.0/0x", "::/0/0", "*", "all", "any", "0/0", "/0", "10.0.0.0/08", "127.0.0.1/+8", "2001:db8::/32/"}
+
+// clusterAddr draws addresses from a few narrow clusters so that generated
+// ranges and probe sources interact (both decisions stay frequent).
+func clusterAddr(rng *rand.Rand) netip.Addr {
+	switch rng.IntN(10) {
+	case 0, 1, 2: // 10.0.0.0/14-ish
+		return netip.AddrFrom4([4]byte{10, byte(rng.IntN(4)), byte(rng.IntN(4)), byte(rng.UintN(256))})
+	case 3: // loopback range (and the internal sentinel's neighbourhood)
+		return netip.AddrFrom4([4]byte{127, 0, 0, byte(250 + rng.IntN(6))})
+	case 4:
+		return netip.AddrFrom4([4]byte{127, byte(rng.IntN(3)), byte(rng.IntN(2)), byte(rng.UintN(256))})
+	case 5: // documentation v4
+		return netip.AddrFrom4([4]byte{192, 0, 2, byte(rng.UintN(256))})
+	case 6, 7: // 2001:db8::/32 cluster
+		var b [16]byte
+		copy(b[:], []byte{0x20, 0x01, 0x0d, 0xb8})
+		b[5] = byte(rng.IntN(2))
+		b[7] = byte(rng.IntN(4))
+		b[15] = byte(rng.UintN(256))
+		if rng.IntN(2) == 0 {
+			b[8] = byte(rng.UintN(256))
+		}
+		return netip.AddrFrom16(b)
+	case 8: // ::/120 (covers ::1)
+		var b [16]byte
+		b[15] = byte(rng.IntN(4))
+		return netip.AddrFrom16(b)
+	default: // v4-mapped literal written as an IPv6 CIDR: matches nobody
+		var b [16]byte
+		b[10], b[11] = 0xff, 0xff
+		b[12], b[13], b[14], b[15] = 10, byte(rng.IntN(4)), byte(rng.IntN(4)), byte(rng.UintN(256))
+		return netip.AddrFrom16(b)
+	}
+}
+
+func clusterPrefix(rng *rand.Rand) string {
+	a := clusterAddr(rng)
+	bits := a.BitLen()
+	var l int
+	switch rng.IntN(6) {
+	case 0:
+		l = bits
+	case 1:
+		l = rng.IntN(bits + 1)
+	case 2:
+		if rng.IntN(4) == 0 {
+			l = 0
+		} else {
+			l = rng.IntN(9)
+		}
+	default: // around the cluster width
+		if a.Is4() {
+			l = 14 + rng.IntN(19)
+		} else if a.Is4In6() {
+			l = 96 + rng.IntN(33)
+		} else {
+			l = 40 + rng.IntN(89)
+		}
+	}
+	return fmt.Sprintf("%s/%d", a, l) // host bits left set
+}
+
+// genACL generates an access list; kind is for evidence.
+func genACL(rng *rand.Rand) (list []string, kind string) {
+	switch k := rng.IntN(24); {
+	case k == 0:
+		return nil, "empty-open-default"
+	case k == 1:
+		return []string{}, "empty-open-default"
+	case k <= 3:
+		n := 1 + rng.IntN(5)
+		for i := 0; i < n; i++ {
+			list = append(list, badEntries[rng.IntN(len(badEntries))])
+		}
+		return list, "all-unparsable"
+	case k <= 6:
+		n := 3 + rng.IntN(6)
+		for i := 0; i < n; i++ {
+			list = append(list, badEntries[rng.IntN(len(badEntries))])
+		}
+		g := 1 + rng.IntN(2)
+		for i := 0; i < g; i++ {
+			j := rng.IntN(len(list) + 1)
+			list = append(list[:j], append([]string{clusterPrefix(rng)}, list[j:]...)...)
+		}
+		return list, "mostly-unparsable"
+	case k == 7:
+		return genList(rng), "wide-random"
+	}
+	n := 1 + rng.IntN(10)
+	withBad := rng.IntN(3) == 0
+	for i := 0; i < n; i++ {
+		if withBad && rng.IntN(4) == 0 {
+			list = append(list, badEntries[rng.IntN(len(badEntries))])
+			continue
+		}
+		if len(list) > 0 && rng.IntN(8) == 0 {
+			list = append(list, list[rng.IntN(len(list))]) // duplicate
+			continue
+		}
+		c := clusterPrefix(rng)
+		list = append(list, c)
+		if rng.IntN(4) == 0 { // nested / adjacent companions
+			if p, err := netip.ParsePrefix(c); err == nil {
+				pm := p.Masked()
+				if pm.Bits() < pm.Addr().BitLen() {
+					list = append(list, netip.PrefixFrom(pm.Addr(), pm.Bits()+1).String())
+				}
+				if nxt := lastOf(pm).Next(); nxt.IsValid() && rng.IntN(2) == 0 {
+					list = append(list, netip.PrefixFrom(nxt, pm.Bits()).String())
+				}
+			}
+		}
+	}
+	if withBad {
+		return list, "mixed-with-unparsable"
+	}
+	return list, "parsable"
+}
+
+// genSources: boundary ±1 of every parsable prefix (sampled down to max),
+// IPv4-mapped and IPv4-compatible numerals of IPv4 boundaries, cluster-random
+// addresses and fixed specials.
+func genSources(rng *rand.Rand, lists [][]string, max int) []srcSpec {
+	var cand []netip.Addr
+	for _, l := range lists {
+		good, _ := parseGood(l)
+		for _, p := range good {
+			lo, hi := p.Addr(), lastOf(p)
+			cand = append(cand, lo, hi)
+			if x := lo.Prev(); x.IsValid() {
+				cand = append(cand, x)
+			}
+			if x := hi.Next(); x.IsValid() {
+				cand = append(cand, x)
+			}
+			if lo.Is4() {
+				cand = append(cand, netip.AddrFrom16(lo.As16()), netip.AddrFrom16(hi.As16()))
+				if x := hi.Next(); x.IsValid() {
+					cand = append(cand, netip.AddrFrom16(x.As16()))
+				}
+				var b [16]byte
+				copy(b[12:], hi.AsSlice())
+				cand = append(cand, netip.AddrFrom16(b)) // ::a.b.c.d — NOT in an IPv4 prefix
+			} else if lo.Is4In6() {
+				cand = append(cand, lo.Unmap(), hi.Unmap()) // v4 twin of a mapped literal CIDR
+			}
+		}
+	}
+	rng.Shuffle(len(cand), func(i, j int) { cand[i], cand[j] = cand[j], cand[i] })
+	keep := max * 3 / 5
+	if len(cand) > keep {
+		cand = cand[:keep]
+	}
+	for len(cand) < max-6 {
+		a := clusterAddr(rng)
+		cand = append(cand, a)
+		if a.Is4() && rng.IntN(3) == 0 {
+			cand = append(cand, netip.AddrFrom16(a.As16()))
+		}
+	}
+	cand = append(cand,
+		netip.MustParseAddr("127.0.0.255"), // the internal sentinel IP as a REAL client (port != 0)
+		netip.MustParseAddr("::ffff:127.0.0.255"),
+		netip.MustParseAddr("127.0.0.1"), netip.MustParseAddr("::1"),
+		netip.MustParseAddr("10.0.0.1"), netip.MustParseAddr("2001:db8::1"))
+	out := make([]srcSpec, 0, len(cand))
+	for _, a := range cand {
+		if !a.IsValid() || a.Zone() != "" {
+			continue
+		}
+		out = append(out, srcSpec{Addr: a, Port: 1 + rng.IntN(65535), Form16: rng.IntN(2) == 0})
+	}
+	return out
+}
+
+// ---------------------------------------------------------------------
+// (ii) in-process pipeline differential
+// ---------------------------------------------------------------------
+
+type pipeCase struct {
+	Part   string   `json:"part"` // "pipeline"
+	Case   int      `json:"case"`
+	ACL    []string `json:"acl"`
+	Twin   bool     `json:"twin_without_unparsable,omitempty"`
+	Source string   `json:"source"`
+	Form16 bool     `json:"form16,omitempty"`
+	Port   int      `json:"port"`
+	Path   string   `json:"path"`
+	QName  string   `json:"qname"`
+	Warm   bool     `json:"warm_name,omitempty"` // name already cached by an admitted source
+	Query  string   `json:"query_hex,omitempty"`
+	Reply  string   `json:"reply_hex,omitempty"`
+}
+
+func newACLStack(r *vlib.Run, acl []string) *stack.Stack {
+	cfg := stack.DefaultConfig()
+	cfg.AccessList = append([]string(nil), acl...)
+	if acl != nil && len(acl) == 0 {
+		cfg.AccessList = []string{}
+	}
+	st, err := stack.New(stack.Options{Config: cfg})
+	if err != nil {
+		r.Inconclusive("harness error: stack.New: " + err.Error())
+		return nil
+	}
+	return st
+}
+
+// judgeProbe applies the C17 oracle to one in-process observation.
+func judgeProbe(r *vlib.Run, pc pipeCase, admitted bool, o obs, qtype uint16) {
+	r.Eval(1)
+	pc.Query = hex.EncodeToString(o.Query)
+	if o.Raw != nil {
+		pc.Reply = hex.EncodeToString(o.Raw)
+	}
+	if o.Panic != nil {
+		r.Violation(vlib.Sig("panic", "pipeline", pc.Path), fmt.Sprintf("panic escaped the server entry: %v", o.Panic), pc)
+		return
+	}
+	if isWirePath(pc.Path) {
+		if o.Strict {
+			r.Count("wire_strict_branch", 1)
+		} else {
+			r.Count("wire_decoded_fallback", 1)
+		}
+	}
+	countContract(r, contractTransport(pc.Path), o.Query, o.Raw)
+	if !admitted {
+		ok := true
+		if o.Wrote {
+			ok = false
+			r.Violation(vlib.Sig("pipeline", "denied-source-got-reply", pc.Path),
+				fmt.Sprintf("source %s is outside access list %q but got a reply (%d write(s)) via %s", pc.Source, pc.ACL, o.Writes, pc.Path), pc)
+		}
+		if o.Stub != 0 {
+			ok = false
+			r.Violation(vlib.Sig("pipeline", "denied-source-reached-resolution", pc.Path),
+				fmt.Sprintf("source %s is outside access list %q but caused %d stub (resolution) call(s) via %s", pc.Source, pc.ACL, o.Stub, pc.Path), pc)
+		}
+		if o.Hits != 0 || o.Misses != 0 {
+			ok = false
+			r.Violation(vlib.Sig("pipeline", "denied-source-cache-lookup", pc.Path),
+				fmt.Sprintf("source %s is outside access list %q but changed cache stats (hits %+d, misses %+d) via %s", pc.Source, pc.ACL, o.Hits, o.Misses, pc.Path), pc)
+		}
+		if ok {
+			r.Count("pipe_denied_silent", 1)
+			r.Count("pipe_denied_"+pc.Path, 1)
+			if pc.Warm {
+				r.Count("pipe_denied_warm_name", 1)
+			}
+		}
+		return
+	}
+	if !o.Wrote {
+		r.Violation(vlib.Sig("pipeline", "allowed-source-dropped", pc.Path),
+			fmt.Sprintf("source %s lies inside access list %q but got no reply via %s", pc.Source, pc.ACL, pc.Path), pc)
+		return
+	}
+	if !answersQuestion(o.Msg, pc.QName, qtype) {
+		r.Violation(vlib.Sig("pipeline", "allowed-source-wrong-reply", pc.Path),
+			fmt.Sprintf("source %s (admitted) got a reply that does not answer %s via %s", pc.Source, pc.QName, pc.Path), pc)
+		return
+	}
+	r.Count("pipe_allowed_answered", 1)
+	r.Count("pipe_allowed_"+pc.Path, 1)
+	if o.Stub > 0 {
+		r.Count("pipe_allowed_reached_stub", 1)
+	}
+	if o.Hits > 0 {
+		r.Count("pipe_allowed_cache_hit", 1)
+	}
+}
+
+// runACLCase drives one access list (and, when it holds unparsable entries
+// next to parsable ones, the same list without them) through every path.
+func runACLCase(r *vlib.Run, ci int, acl []string, kind string, sources []srcSpec) {
+	good, bad := parseGood(acl)
+	type decision struct{ wrote bool }
+	decide := func(list []string, twin bool) map[string]decision {
+		st := newACLStack(r, list)
+		if st == nil {
+			return nil
+		}
+		defer st.Close()
+		out := map[string]decision{}
+		var warm []string
+		seq := 0
+		for si, src := range sources {
+			admitted := refAdmits(list, src.Addr)
+			for _, path := range inprocPaths {
+				seq++
+				prng := rand.New(rand.NewPCG(uint64(ci)<<20|uint64(seq), 0xc17))
+				qname := fmt.Sprintf("p%d-%d.acl.c17.test.", ci, seq)
+				isWarm := false
+				if !admitted && len(warm) > 0 && prng.IntN(2) == 0 {
+					qname, isWarm = warm[prng.IntN(len(warm))], true
+				}
+				q := buildQuery(prng, qname, dns.TypeA)
+				o := serveInproc(st, src, path, q)
+				pc := pipeCase{Part: "pipeline", Case: ci, ACL: list, Twin: twin, Source: src.Addr.String(), Form16: src.Form16,
+					Port: src.Port, Path: path, QName: qname, Warm: isWarm}
+				judgeProbe(r, pc, admitted, o, dns.TypeA)
+				out[fmt.Sprintf("%d/%s", si, path)] = decision{o.Wrote}
+				if admitted && o.Wrote && len(warm) < 8 && !isWarm {
+					warm = append(warm, qname)
+				}
+				if admitted {
+					r.Count("pipe_probes_admitted", 1)
+				} else {
+					r.Count("pipe_probes_denied", 1)
+				}
+			}
+		}
+		return out
+	}
+	d1 := decide(acl, false)
+	r.Count("pipe_lists", 1)
+	r.Count("pipe_lists_"+kind, 1)
+	if d1 != nil && bad > 0 && len(good) > 0 {
+		// an unparsable entry never changes a decision: the same list without
+		// the unparsable entries (still non-empty) must decide every probe alike
+		d2 := decide(prefixStrings(good), true)
+		for k, a := range d1 {
+			b, ok := d2[k]
+			if !ok {
+				continue
+			}
+			r.Eval(1)
+			r.Count("pipe_twin_compared", 1)
+			if a.wrote != b.wrote {
+				var si int
+				var path string
+				fmt.Sscanf(k, "%d/%s", &si, &path)
+				r.Violation("pipeline/unparsable-entry-changes-decision",
+					fmt.Sprintf("source %s via %s: replied=%v with access list %q but %v with the unparsable entries removed", sources[si], path, a.wrote, acl, b.wrote),
+					pipeCase{Part: "pipeline", Case: ci, ACL: acl, Source: sources[si].Addr.String(), Form16: sources[si].Form16, Port: sources[si].Port, Path: path})
+			}
+		}
+		r.Count("pipe_twin_lists", 1)
+	}
+	in, out := 0, 0
+	for _, s := range sources {
+		if refAdmits(acl, s.Addr) {
+			in++
+		} else {
+			out++
+		}
+	}
+	if in > 0 && out > 0 && len(good) > 1 {
+		r.Distinct(fmt.Sprintf("acl:%v", acl))
+	}
+	if ci < 2 {
+		r.Sample(map[string]any{"kind": "pipeline-acl", "list_kind": kind, "acl": acl, "sources": len(sources), "admitted": in, "denied": out, "paths": inprocPaths})
+	}
+}
+
+func runPipelineInproc(r *vlib.Run) {
+	n := r.N(120, 3000)
+	for ci := 0; ci < n; ci++ {
+		rng := r.RandN("pipe", ci)
+		acl, kind := genACL(rng)
+		sources := genSources(rng, [][]string{acl}, r.N(36, 60))
+		runACLCase(r, ci, acl, kind, sources)
+		r.Progress("pipeline in-process %d/%d", ci+1, n)
+	}
+}
+
+// ---------------------------------------------------------------------
+// entry point + replay
+// ---------------------------------------------------------------------
+
+func runPipeline(r *vlib.Run) {
+	if rc := r.ReplayCase(); rc != nil {
+		replayPipeline(r, rc)
+		return
+	}
+	r.Count("contract_breaches", 0)
+	// VERIF_C17_ONLY=pipeline,sockets,views,internal restricts the run to some
+	// parts (debugging aid; the skipped parts' Require minimums then make the
+	// run inconclusive unless a violation is found)
+	only := os.Getenv("VERIF_C17_ONLY")
+	want := func(p string) bool { return only == "" || strings.Contains(only, p) }
+	timed := func(name string, f func(*vlib.Run)) {
+		if !want(name) {
+			return
+		}
+		t0 := time.Now()
+		f(r)
+		r.Note("wall_s_"+name, float64(int(time.Since(t0).Seconds()*10))/10)
+	}
+	timed("pipeline", runPipelineInproc)
+	timed("sockets", runSockets)
+	timed("views", runViews)
+	timed("internal", runInternal)
+
+	r.Require("pipe_probes_admitted", 2000)
+	r.Require("pipe_probes_denied", 2000)
+	r.Require("pipe_allowed_answered", 2000)
+	r.Require("pipe_denied_silent", 2000)
+	r.Require("pipe_denied_warm_name", 200)
+	r.Require("wire_strict_branch", 1000)
+	for _, p := range inprocPaths {
+		r.Require("pipe_allowed_"+p, 150)
+		r.Require("pipe_denied_"+p, 150)
+	}
+	r.Require("pipe_lists_all-unparsable", 3)
+	r.Require("pipe_lists_mostly-unparsable", 3)
+	r.Require("pipe_lists_empty-open-default", 1)
+	r.Require("pipe_twin_compared", 500)
+
+	r.Assume("an EMPTY configured access list is sdns's documented open default (accesslist.New installs 0.0.0.0/0 and ::0/0); a non-empty list of only unparsable entries admits nobody")
+	r.Assume("a DoH request from a denied source gets an HTTP error status with no DNS message (net/http must answer the request); that is counted as 'no reply'")
+	r.Assume("probe sources never use port 0: 127.0.0.255:0 is sdns's documented legacy internal sentinel (responseWriter.Reset), unreachable from a real socket")
+	r.Assume("when the first view containing the client holds no record for the question, sdns falls through to resolution (documented in views.ServeDNS); those probes are counted, not judged")
+}
+
+func replayPipeline(r *vlib.Run, rc json.RawMessage) {
+	var head struct {
+		Part string `json:"part"`
+	}
+	_ = json.Unmarshal(rc, &head)
+	switch head.Part {
+	case "pipeline":
+		var pc pipeCase
+		if err := json.Unmarshal(rc, &pc); err != nil {
+			r.Inconclusive("replay: " + err.Error())
+			return
+		}
+		a, err := netip.ParseAddr(pc.Source)
+		if err != nil {
+			r.Inconclusive("replay: bad source: " + err.Error())
+			return
+		}
+		src := srcSpec{Addr: a, Port: pc.Port, Form16: pc.Form16}
+		st := newACLStack(r, pc.ACL)
+		if st == nil {
+			return
+		}
+		defer st.Close()
+		rng := r.RandN("replay", 0)
+		if pc.Warm {
+			// re-create the warm entry through an admitted in-process source if the list admits any
+			for _, s := range genSources(rng, [][]string{pc.ACL}, 40) {
+				if refAdmits(pc.ACL, s.Addr) {
+					serveInproc(st, s, "msg-tcp", buildQuery(rng, pc.QName, dns.TypeA))
+					break
+				}
+			}
+		}
+		o := serveInproc(st, src, pc.Path, buildQuery(rng, pc.QName, dns.TypeA))
+		judgeProbe(r, pc, refAdmits(pc.ACL, a), o, dns.TypeA)
+	case "views":
+		replayViews(r, rc)
+	default:
+		r.Inconclusive("replay: case part " + head.Part + " is re-executed by seed and case index (run the tier with the recorded VERIF_SEED)")
+	}
+}
